@@ -4,6 +4,7 @@
     removes trailing zeros ([isz] is any zero test: isz x = true <-> x = 0).  [ref_*] are the plain
     operations on normal forms (compute, then normalise), as gfpx does. *)
 Require Import MPyC.Base MPyC.Field MPyC.Poly MPyC.Zp MPyC.SecPoly.
+Require MPyC.Gfpx.
 From Coq Require Import ZArith Znumtheory.
 Local Open Scope nat_scope.
 
@@ -130,6 +131,18 @@ Proof.
 Qed.
 Print Assumptions C38_length_formulas.
 
+(** powmod as coded in secpols._powmod (square-and-multiply with the n = 1 reduction) over the Gfpx
+    model's normal-form multiplication and remainder: for every n >= 1 the result is a reduced normal
+    form (degree < deg b) congruent to a^n modulo (p, b), i.e. it is (a^n) mod b.
+    cong p b x y  :=  exists k1 k2, x = y + k1*b + p*k2 in Z[x] (as polynomial functions over Z) *)
+Theorem C38_powmod_correct :
+  forall (p : Z) (b a : list Z) (n : Z),
+    prime p -> Gfpx.wf p b -> b <> [] -> Gfpx.wf p a -> (1 <= n)%Z ->
+    Gfpx.wf p (sp_powmod p b a n) /\ (length (sp_powmod p b a n) < length b)%nat /\
+    cong p b (sp_powmod p b a n) (powz a (Z.to_nat n)).
+Proof. intros p b a n Pp Wb Hb Wa Hn. apply sp_powmod_correct; assumption. Qed.
+Print Assumptions C38_powmod_correct.
+
 (** Instance: the executable model over integers modulo a prime (the one run against secpols.py). *)
 Theorem C38_Zp :
   forall (p : Z) (Hp : prime p) (a b : list (Zp p)),
@@ -154,7 +167,9 @@ Example C38_nonvacuous :
   zsp_strip 5 (zsp_add 5 [1; 2; 0; 0]%Z [4; 3; 1]%Z) = [0; 0; 1]%Z /\
   zsp_mul 5 [1; 2; 0; 0]%Z [4; 3; 1]%Z = [4; 1; 2; 2; 0; 0]%Z /\
   zsp_degree 5 [1; 2; 0; 0]%Z = 1%Z /\ zsp_call 5 [1; 2; 0; 0]%Z 3 = 2%Z /\
-  zsp_eq 5 [1; 2; 0; 0]%Z [1; 2]%Z = true.
+  zsp_eq 5 [1; 2; 0; 0]%Z [1; 2]%Z = true /\
+  Gfpx.wfb 5 [1; 2]%Z = true /\ Gfpx.wfb 5 [4; 3; 1]%Z = true /\
+  sp_powmod 5 [4; 3; 1]%Z [1; 2]%Z 3 = [4]%Z /\ sp_powmod 5 [4; 3; 1]%Z [1; 2; 0; 3]%Z 1 = [2; 2]%Z.
 Proof.
-  split; [apply is_prime_small_correct; reflexivity|]. split; [exact (zisz_spec 5)|]. vm_compute. auto 10.
+  split; [apply is_prime_small_correct; reflexivity|]. split; [exact (zisz_spec 5)|]. vm_compute. repeat split.
 Qed.
